@@ -43,9 +43,11 @@ func pfEditRun(t *testing.T, r *vh.Report, wantDiff bool) ([][]*pfCase, bool) {
 }
 
 // pfAbstractedLiteralEdit: edits that change nothing but a literal of a kind the default policy
-// documents as abstracted (AbstractOtherTypes: floats). They are judged with all literals kept
+// documents as abstracted (AbstractOtherTypes: floats; integers outside the small range). They are judged with all literals kept
 // only; the diff (which runs under the default policy) cannot see them by design.
-func pfAbstractedLiteralEdit(op string) bool { return op == "E13-float-literal" }
+func pfAbstractedLiteralEdit(op string) bool {
+	return op == "E13-float-literal" || op == "E14-large-int-literal"
+}
 
 func TestVerifC03(t *testing.T) {
 	r := vh.New("edits-fingerprint")
